@@ -29,7 +29,7 @@ CONSTANTS MaxParams,   \* parameters per definition
                        \* "render": names by position, default/annotation vary, all forms, no call
                        \* "wrap": wrapped definition + **kwargs pass-through wrapper
           EmitMod, EmitRem,   \* emission: the slice CaseNo % EmitMod = EmitRem
-          EmitParts, EmitPart \* emission: this run explores definitions whose first token hashes to EmitPart
+          EmitParts, EmitPart \* emission: this run explores the calls of definitions hashing to EmitPart
 
 ---------------------------------------------------------------------------
 (* Text *)
@@ -432,6 +432,13 @@ WrapLive == LET wref == WRef  fref == RefParams(defn) IN
 \* deviation: f's **name is dropped when the wrapper passes a keyword of that very name
 DevWrapVarKwNamedLikeGiven == \E j \in 1..Len(defn) : defn[j].stars = 2 /\ defn[j].name \in given.kw
 WrapperOK == (Ready /\ Mode = "wrap" /\ WrapLive) => (WrapDisagree = {} \/ DevWrapVarKwNamedLikeGiven)
+\* to_string() of the reported wrapper signature compiles; deviation: f's **name equal to one of the
+\* wrapper's own parameter names is reported next to it ("w(a=1, **a)": duplicate argument)
+DevWrapVarKwNamedLikeOwn == \E j \in 1..Len(defn) : defn[j].stars = 2 /\
+                               \E k \in ParamSet(wdefn) : wdefn[k].name = defn[j].name
+WrapRoundTripOK == (Ready /\ Mode = "wrap") =>
+                     \/ DevWrapVarKwNamedLikeOwn
+                     \/ (WF(ToStr(Rep)) /\ Complete(ToStr(Rep)) /\ RefParams(ToStr(Rep)) = Shown(Rep))
 
 ---------------------------------------------------------------------------
 (* Docstrings: which first statement of a body is the docstring.
@@ -479,6 +486,7 @@ Case ==
         triples |-> Args, idx |-> Idx, acc |-> Acc, pok |-> PrefixOK(RP, call), devs |-> Devs,
         verdict |-> IF Mode = "index" THEN IndexVerdict ELSE "none"]
 Emit == (Ready /\ CaseNo % EmitMod = EmitRem) => PrintT(<<"CASE", ToJson(Case)>>)
-\* several single-worker emission runs share the space: a partition on the first token
-InPart == IF defn = <<>> THEN TRUE ELSE HTok(defn[1]) % EmitParts = EmitPart
+\* several single-worker emission runs share the space: every run types all definitions, the calls
+\* (and wrappers) of a definition are explored only by the run that owns the definition
+InPart == phase = "def" \/ HDef(defn) % EmitParts = EmitPart
 =============================================================================
